@@ -216,7 +216,7 @@ pub fn c12(opts: &Opts, out: &mut Out) {
                         .collect();
                     out.req(
                         format!("bscalars n={} t={} maxN={} pad={} members={}", n, t, max_n, table - 2 * max_n, members.join("|")),
-                        format!("static={} dynamic={} table={}", hlist(st), hlist(dy), table),
+                        format!("static={} dynamic={} table={} msms={}", hlist(st), hlist(dy), table, msm_in.len()),
                     );
                 }
             }
